@@ -7,9 +7,9 @@ status = {}
 sp = os.path.join(V, "seeded", "status.json")
 if os.path.exists(sp):
     status = json.load(open(sp))
-for d in sorted(glob.glob("/tmp/seed/C*/mut[0-9]")) + sorted(glob.glob("/tmp/seed2/C*/mut[0-9]")) + sorted(glob.glob("/tmp/seed3/C*/mut[0-9]")) + sorted(glob.glob("/tmp/seed4/C*/mut[0-9]")) + sorted(glob.glob("/tmp/seed5/C*/mut[0-9]")) + sorted(glob.glob("/tmp/seed6/C*/mut[0-9]")) + sorted(glob.glob("/tmp/seed7/C*/mut[0-9]")):
+for d in sorted(glob.glob("/tmp/seed/C*/mut[0-9]")) + sorted(glob.glob("/tmp/seed2/C*/mut[0-9]")) + sorted(glob.glob("/tmp/seed3/C*/mut[0-9]")) + sorted(glob.glob("/tmp/seed4/C*/mut[0-9]")) + sorted(glob.glob("/tmp/seed5/C*/mut[0-9]")) + sorted(glob.glob("/tmp/seed6/C*/mut[0-9]")) + sorted(glob.glob("/tmp/seed7/C*/mut[0-9]")) + sorted(glob.glob("/tmp/seed8/C*/mut[0-9]")):
     prop = d.split("/")[3]; m = d.split("/")[4].replace("mut", "m")
-    sid = "%s-%s" % (prop, m) if d.startswith("/tmp/seed/") else ("%s-r2%s" % (prop, m) if d.startswith("/tmp/seed2/") else ("%s-r3%s" % (prop, m) if d.startswith("/tmp/seed3/") else ("%s-r4%s" % (prop, m) if d.startswith("/tmp/seed4/") else ("%s-r5%s" % (prop, m) if d.startswith("/tmp/seed5/") else ("%s-r6%s" % (prop, m) if d.startswith("/tmp/seed6/") else "%s-r7%s" % (prop, m))))))
+    sid = "%s-%s" % (prop, m) if d.startswith("/tmp/seed/") else ("%s-r2%s" % (prop, m) if d.startswith("/tmp/seed2/") else ("%s-r3%s" % (prop, m) if d.startswith("/tmp/seed3/") else ("%s-r4%s" % (prop, m) if d.startswith("/tmp/seed4/") else ("%s-r5%s" % (prop, m) if d.startswith("/tmp/seed5/") else ("%s-r6%s" % (prop, m) if d.startswith("/tmp/seed6/") else ("%s-r7%s" % (prop, m) if d.startswith("/tmp/seed7/") else "%s-r8%s" % (prop, m)))))))
     dst = os.path.join(V, "seeded", sid)
     if not os.path.exists(os.path.join(d, "patch.diff")):
         continue
